@@ -16,6 +16,7 @@ import (
 	"reflect"
 	"runtime/debug"
 	"strconv"
+	"sync"
 	"unsafe"
 )
 
@@ -258,6 +259,7 @@ func Run(cfg Config, mainFn func()) *Result {
 	if cfg.RecordSwitchPairs > 0 {
 		s.res.SwitchPairs = map[[2]int32]int{}
 	}
+	resetPools()
 	main := &task{id: 0, name: "main", resume: make(chan resumeMsg, 1), isMain: true}
 	s.tasks = []*task{main}
 	s.current = main
@@ -1266,4 +1268,57 @@ func selectReq(s *Sim, site int, hasDefault bool, reqs []selCaseReq) (int, int) 
 		return m.sel, modeNeedDone | (t.id+1)<<8
 	}
 	return m.sel, modeProceed
+}
+
+// ---- sync.Pool ---------------------------------------------------------------------------
+
+// sync.Pool is a source of nondeterminism of its own (per-P caches, emptied by the garbage
+// collector).  Inside a simulation a pool is a LIFO free list per pool: Get returns the most
+// recently Put object, or New() if there is none.  The hand-over from Put to Get goes through
+// a real mutex, which gives the race detector the same happens-before edge sync.Pool provides.
+
+type poolModel struct {
+	mu    sync.Mutex
+	items map[*sync.Pool][]interface{}
+}
+
+var pools = &poolModel{items: map[*sync.Pool][]interface{}{}}
+
+// PoolGet replaces p.Get().
+func PoolGet(p *sync.Pool, site int) interface{} {
+	if getCur() == nil {
+		return p.Get()
+	}
+	pools.mu.Lock()
+	st := pools.items[p]
+	var v interface{}
+	if n := len(st); n > 0 {
+		v = st[n-1]
+		pools.items[p] = st[:n-1]
+	}
+	pools.mu.Unlock()
+	if v == nil && p.New != nil {
+		v = p.New()
+	}
+	return v
+}
+
+// PoolPut replaces p.Put(x).
+func PoolPut(p *sync.Pool, x interface{}, site int) {
+	if getCur() == nil {
+		p.Put(x)
+		return
+	}
+	if x == nil {
+		return
+	}
+	pools.mu.Lock()
+	pools.items[p] = append(pools.items[p], x)
+	pools.mu.Unlock()
+}
+
+func resetPools() {
+	pools.mu.Lock()
+	pools.items = map[*sync.Pool][]interface{}{}
+	pools.mu.Unlock()
 }
